@@ -60,7 +60,7 @@ def run_case(case: dict) -> dict:
     viols: list[dict] = []
     counters: dict[str, int] = {"protocol_steps": 0, "segments_checked": 0}
     # prefix: fresh or continued
-    prefix = rng.choice(["fresh", "simulate", "override", "protocol", "simulate+override"])
+    prefix = rng.choice(["fresh", "simulate", "override", "protocol", "simulate+override", "simulate+update_parameter", "protocol+update_parameter"])
     pre: list[dict] = []
     if "simulate" in prefix:
         pre.append({"op": "simulate", "t_end": dy(rng, 0.25, 2.0), "steps": rng.randint(1, 5)})
@@ -72,6 +72,19 @@ def run_case(case: dict) -> dict:
         pre.append({"op": "protocol", "steps": gen_protocol(rng, list(net.params)), "n": rng.randint(1, 4)})
     counters[f"prefix:{prefix}"] = 1
     steps = gen_protocol(rng, list(net.params))
+    if "update_parameter" in prefix:
+        # a parameter is changed without simulating, and the protocol's first step sets it back to the value it had
+        # during the previous integration (bookkeeping that remembers 'the values last simulated with' shows here)
+        if prefix.startswith("protocol"):
+            pre.append({"op": "protocol", "steps": gen_protocol(rng, list(net.params)), "n": rng.randint(1, 3)})
+        pname = rng.choice(sorted(steps[0][1]))
+        last = net.params[pname]
+        for op_ in pre:
+            if op_["op"] == "protocol":
+                for _d, vals in op_["steps"]:
+                    last = vals.get(pname, last)
+        pre.append({"op": "update_parameter", "name": pname, "value": dy(rng, 0.25, 2.5) + 3.0})
+        steps[0][1][pname] = last
     total = sum(d for d, _ in steps)
     form = rng.choice(["protocol", "protocol_tc"])
     if form == "protocol":
